@@ -296,7 +296,7 @@ def real_decode(uni: B.Universe, clazz: str, data, config: dict, via="dict"):
 # ---- dict.bindkeys: the real bind_dataclass loop with the value binder stubbed out
 def export_dvars(meta):
     return [
-        {"name": v.name, "local_name": v.local_name, "wrapper": v.wrapper, "is_list": bool(v.list_element or v.tokens), "init": bool(v.init)}
+        {"name": v.name, "local_name": v.local_name, "wrapper": v.wrapper, "is_list": bool(v.list_element or v.tokens), "list_element": bool(v.list_element), "init": bool(v.init)}
         for v in meta.get_all_vars()
     ]
 
@@ -304,6 +304,8 @@ def export_dvars(meta):
 def shape_of(value):
     from xsdata.utils import collections
 
+    if value is None:
+        return "null"
     if collections.is_array(value):
         return "array"
     if isinstance(value, dict):
@@ -314,6 +316,8 @@ def shape_of(value):
 def shape_value(shape, key):
     """a JSON value of the given shape whose leaves name the key it sits under"""
     tag = "K:" + key
+    if shape == "null":
+        return None
     if shape == "scalar":
         return tag
     if shape == "array":
